@@ -315,8 +315,13 @@ def eval_case(case, drv):
                                     "chunks": case["chunks"]}
                 break
     # chunk-merging correspondence on the operated dimension
-    if case["kind"] == "simple" and core_chunked:
+    try:
+        # the anchored helper (xgcm/grid_ufunc.py:1038-1073) is private: if it has been renamed or inlined, this one
+        # correspondence is skipped - its effect is still observed through the chunks of every lazy result
         from xgcm.grid_ufunc import _get_chunk_pattern_for_merging_boundary
+    except ImportError:
+        _get_chunk_pattern_for_merging_boundary = None
+    if case["kind"] == "simple" and core_chunked and _get_chunk_pattern_for_merging_boundary is not None:
         import xgcm
         layout = Layout(case["layout"]["axes"], [tuple(e) for e in case["layout"]["extra"]])
         ds, grid = build_grid(layout, boundary="fill")
